@@ -2,7 +2,7 @@
 From Coq Require Import NArith Arith List Lia Bool.
 From BU Require Import Base.Exn Base.Radix Base.Bytes Model.BinStr Model.Bip39 Model.Bip39Spec
                        Gen.Bip39Consts Gen.WlBip39
-                       Lemmas.BinStr Lemmas.Bip39 Lemmas.Bip39WlAux Lemmas.Bip39WordlistsOk Lemmas.Bip39Autodetect.
+                       Lemmas.BinStr Lemmas.Bip39 Lemmas.Bip39Norm Lemmas.Bip39WlAux Lemmas.Bip39WordlistsOk Lemmas.Bip39Autodetect.
 Import ListNotations.
 Open Scope N_scope.
 
@@ -94,6 +94,34 @@ Section P.
   Proof.
     intros Hb E. rewrite p_encode_is_spec in E by exact Hb. destruct Hsha as [A B].
     exact (encode_spec_words_in sha256 A wl wl_len ent ws E).
+  Qed.
+
+  (* ---- str arguments: Bip39Mnemonic.FromString undoes any white-space layout of listed words ---- *)
+  Lemma listed_words_plain ws : Forall (fun w => In w wl) ws -> Forall plain ws.
+  Proof.
+    intros H. pose proof (proj2 (proj2 (proj2 (bip39_list_ok wl Hwl)))) as P.
+    pose proof (proj1 (Forall_forall _ _) H) as H'. pose proof (proj1 (Forall_forall _ _) P) as P'.
+    apply Forall_forall. intros w Hw. destruct (P' w (H' w Hw)) as [Hne Hc]. split; [exact Hne|].
+    pose proof (proj1 (Forall_forall _ _) Hc) as Hc'.
+    apply Forall_forall. intros c Hcw. exact (proj1 (Hc' c Hcw)).
+  Qed.
+
+  Lemma p_normalize_layout ws seps lead trail : Forall (fun w => In w wl) ws ->
+    Forall (fun sp => sp <> [] /\ all_space sp) seps -> all_space lead -> all_space trail ->
+    normalize nfkd lower (lead ++ join_with seps ws ++ trail) = ws.
+  Proof.
+    intros H Hs Hl Ht. unfold normalize. rewrite split_join_with; try assumption; [|apply listed_words_plain; exact H].
+    unfold normalize_list. apply map_id_in. intros w Hw. apply Hnf. rewrite Forall_forall in H. auto.
+  Qed.
+
+  Lemma p_decode_str_encode ent ws seps lead trail : bytes_ok ent ->
+    encode sha256 nfkd lower wl ent = Ok ws ->
+    Forall (fun sp => sp <> [] /\ all_space sp) seps -> all_space lead -> all_space trail ->
+    decode_str sha256 nfkd lower bip39_langs (Some wl) (lead ++ join_with seps ws ++ trail) = Ok ent.
+  Proof.
+    intros Hb E Hs Hl Ht. unfold decode_str.
+    rewrite p_normalize_layout by (try assumption; exact (p_encode_words_listed ent ws Hb E)).
+    exact (p_decode_encode ent ws Hb E).
   Qed.
 
   (* with the language auto-detected: the round trip for every language but French *)
